@@ -82,7 +82,12 @@ def compile_python(text, scratch, name='t'):
     nodes, error, _ = run_prophyc([src, '--python_out', out])
     if error:
         raise CompileError(error)
-    return import_generated(out, name), nodes[name]
+    try:
+        mod = import_generated(out, name)
+    except Exception as ex:
+        # accepted by prophyc, but the module it wrote cannot be imported: reported like a rejection, with the reason
+        raise CompileError('generated module does not import: %r' % ex)
+    return mod, nodes[name]
 
 
 class CompileError(Exception):
